@@ -1221,8 +1221,39 @@ def _closure_roles(tree: ast.Module, modname: str) -> int:
     return k
 
 
+def _delegating_generators(tree: ast.Module) -> int:
+    """T21: a module-level generator whose whole body is `yield from E` hands out exactly the items of E; when every
+    call of it is the iterable of a `for` statement or of a comprehension (consumed at once, on the spot), the call
+    stands for E itself: the generator becomes `return E` (and is then inlined like any other helper)"""
+    k = 0
+    for fn in list(tree.body):
+        if not isinstance(fn, ast.FunctionDef) or fn.decorator_list:
+            continue
+        body = list(fn.body)
+        if body and isinstance(body[0], ast.Expr) and isinstance(body[0].value, ast.Constant) and isinstance(body[0].value.value, str):
+            body = body[1:]
+        if not (len(body) == 1 and isinstance(body[0], ast.Expr) and isinstance(body[0].value, ast.YieldFrom)):
+            continue
+        iters = set()
+        for n in ast.walk(tree):
+            if isinstance(n, (ast.For, ast.comprehension)):
+                iters.add(id(n.iter))
+        uses = [n for n in ast.walk(tree) if isinstance(n, ast.Name) and n.id == fn.name and isinstance(n.ctx, ast.Load)]
+        calls = [n for n in ast.walk(tree) if isinstance(n, ast.Call) and isinstance(n.func, ast.Name) and n.func.id == fn.name]
+        if len(uses) != len(calls) or not calls or not all(id(c) in iters for c in calls):
+            continue
+        i = fn.body.index(body[0])
+        fn.body[i] = ast.copy_location(ast.Return(value=body[0].value.value), body[0])
+        fn.returns = None
+        k += 1
+    if k:
+        ast.fix_missing_locations(tree)
+    return k
+
+
 def normalise(tree: ast.Module, modname: str = "") -> Dict[str, int]:
     stats = {"T1 splat": 0, "T2 parallel": 0, "T3 unroll": 0, "T4 tests": 0}
+    stats["T21 delegating generator"] = _delegating_generators(tree)
     fns = [n for n in ast.walk(tree) if isinstance(n, (ast.FunctionDef, ast.AsyncFunctionDef))]
     for fn in fns:
         stats["T3 unroll"] += _unroll(fn)
